@@ -297,7 +297,7 @@ macro_rules! impl_traits {
 
         impl Support<$kind> for KsTwoAsymptotic {
             fn supports(&self, x: &$kind) -> bool {
-                *x >= 0.0 && *x <= 1.0
+                *x >= 0.0 && x.is_finite()
             }
         }
 
